@@ -284,7 +284,7 @@ def run(ctx):
                         ctx.violation(kind, w, "result=%r model=%r" % (got[:6], want[:6]))
                         break
                     msgs = sorted(str(e) for e in res.errors if "resolver error at" in str(e))
-                    if msgs != sorted(ref[3].error_messages) and not ref[3].type_failures:
+                    if msgs != sorted(m for m in ref[3].error_messages if "resolver error at" in m) and not ref[3].type_failures:
                         ctx.violation("event:error-messages-of-another-event", w, "result=%r model=%r" % (msgs[:3], sorted(ref[3].error_messages)[:3]))
                         break
                     if ref[2]:
